@@ -6,7 +6,7 @@ import ast
 import re
 from collections import Counter
 
-from ..cppast import CHECK_RE, CppFacts, skeleton, statements, tokens
+from ..cppast import CHECK_RE, CppFacts, skeleton, statements, tokens, _COMMENT
 from ..pyfacts import Repo, dotted_name, walk_no_nested_funcs
 from ..report import AnalysisError, RuleResult
 from ..templates import TEMPLATES, Templates
@@ -1003,6 +1003,20 @@ def signext(facts: CppFacts):
                         "(an all-ones 8-bit field of a 16-bit signed enum reads 255, not -1)", m.file, m.line, f"{cls}::{meth}")
             elif len(res.samples) < 2:
                 res.samples.append(f"{cls}::{meth}: raw value through {conv or 'a kBits-dependent expression'}")
+            # the converse: EnumView's ValueType is as often unsigned (the default: uint64_t).  A conversion of the raw
+            # bits through a signed intermediate must be conditional on the signedness of ValueType, or an unsigned enum
+            # whose field has its top bit set reads back with all higher bits set
+            if cls == "EnumView":
+                res.instances += 1
+                stmt = next((st for st in body.split(";") if re.search(r"buffer_\s*\.\s*(?:Unchecked)?ReadUInt", st)), "")
+                via_signed = re.search(r"::\s*Signed\b|make_signed|\bu?int(?:8|16|32|64)_t\b(?<!uint8_t)(?<!uint16_t)(?<!uint32_t)(?<!uint64_t)|ConvertToSigned|\bsigned\b", stmt)
+                helper_signed = conv in own and re.search(r"::\s*Signed\b|make_signed|ConvertToSigned", own[conv].body) \
+                    and "is_signed" not in own[conv].body
+                if (via_signed and "is_signed" not in body) or helper_signed:
+                    res.add(f"{m.file}|{cls}::{meth}|sign-extends-unsigned", f"{cls}::{meth} takes the raw field bits through a signed type "
+                            f"(`{(via_signed.group(0) if via_signed else conv)}`) whatever the signedness of ValueType: an enum without "
+                            "[is_signed] (backed by uint64_t) in an 8/16/32-bit field with the top bit set reads 0xff..80 instead of 128",
+                            m.file, m.line, f"{cls}::{meth}")
     res.analysed = ["runtime/cpp/emboss_prelude.h", "runtime/cpp/emboss_enum_view.h"]
     return res
 
@@ -1674,4 +1688,199 @@ def cxx11constexpr(repo):
     if res.instances < 40:
         raise AnalysisError(f"only {res.instances} constexpr function definitions recognised")
     res.analysed = files
+    return res
+
+
+# ---- R-MAXARGS ------------------------------------------------------------------------------------------
+def maxargs(repo):
+    """R-MAXARGS (C05/C01): every overload of MaximumOperation::Do (hand-written and generated) returns the maximum of
+    *all* its arguments: each parameter is a candidate exactly once, a two-way selection `a < b ? x : y` selects among
+    the two values it compared (x is b, y is a), and nested Do(...) calls partition the parameters.  The compiler's bounds
+    for $max (and every $size_in_bytes, which is a $max over field ends) assume exactly that."""
+    res = RuleResult("R-MAXARGS")
+    files = ["runtime/cpp/emboss_arithmetic.h", "runtime/cpp/emboss_arithmetic_maximum_operation_generated.h"]
+    text = repo.read(files[0])
+    a = text.find("struct MaximumOperation")
+    if a < 0:
+        raise AnalysisError("emboss_arithmetic.h: struct MaximumOperation vanished")
+    b = text.find("\n};", a)
+    bodies = [(files[0], text[a:b], text[:a].count("\n"))]
+    if '#include "emboss_arithmetic_maximum_operation_generated.h"' in text[a:b]:
+        bodies.append((files[1], repo.read(files[1]), 0))
+    rx = re.compile(r"constexpr\s+T\s+Do\(([^)]*)\)\s*\{((?:[^{}]|\{[^{}]*\})*)\}")
+    arities = set()
+    for fn, body, base in bodies:
+        clean = re.sub(r"//[^\n]*", lambda m_: " " * len(m_.group(0)), body)
+        for mt in rx.finditer(clean):
+            params = [p.split()[-1] for p in mt.group(1).split(",") if p.strip()]
+            line = base + clean[:mt.start()].count("\n") + 1
+            rm = re.search(r"return\s+([^;]*);", mt.group(2))
+            res.instances += 1
+            arities.add(len(params))
+            key = f"{fn}|MaximumOperation::Do/{len(params)}"
+            if not rm or len(re.findall(r"\breturn\b", mt.group(2))) != 1:
+                res.add(key + "|shape", "overload is not a single `return <expr>;`", fn, line, f"Do/{len(params)}")
+                continue
+            expr = rm.group(1)
+            bad = False
+            for t in re.finditer(r"([\w.]+)\s*(<|>|<=|>=)\s*([\w.]+)\s*\?\s*([\w.]+)\s*:\s*([\w.]+)", expr):
+                l, op, r, x, y = t.groups()
+                want = (r, l) if op in ("<", "<=") else (l, r)
+                if (x, y) != want:
+                    res.add(key + f"|select|{t.group(0)[:30]}", f"`{t.group(0)}` does not select the larger of the two values it compares "
+                            f"(expected `{l} {op} {r} ? {want[0]} : {want[1]}`): the result can be smaller than an argument, below the "
+                            "lower bound the compiler inferred for $max / $size_in_bytes", fn, line, f"Do/{len(params)}")
+                    bad = True
+            if "?" in re.sub(r"([\w.]+)\s*(<|>|<=|>=)\s*([\w.]+)\s*\?\s*([\w.]+)\s*:\s*([\w.]+)", "", expr):
+                res.add(key + "|shape", f"unrecognised selection in `{expr[:60]}`", fn, line, f"Do/{len(params)}")
+                continue
+            reduced = re.sub(r"([\w.]+)\s*(<|>|<=|>=)\s*([\w.]+)\s*\?\s*([\w.]+)\s*:\s*([\w.]+)", r"\1, \3", expr)
+            used = Counter(w for w in re.findall(r"[A-Za-z_]\w*", reduced) if w != "Do")
+            if not bad and used != Counter(params):
+                missing = sorted(set(params) - set(used))
+                extra = sorted(w for w, c in used.items() if c > 1 or w not in params)
+                res.add(key + "|candidates", f"`{expr[:70]}`: parameters {missing or '-'} are never candidates, {extra or '-'} "
+                        "are used more than once or are not parameters: the result is not the maximum of all arguments", fn, line,
+                        f"Do/{len(params)}")
+    if not {1, 2, 3, 4, 5} <= arities:
+        raise AnalysisError(f"MaximumOperation::Do overloads found for arities {sorted(arities)[:8]} only")
+    res.samples = [f"{res.instances} overloads, arities {min(arities)}..{max(arities)}"]
+    res.analysed = files
+    return res
+
+
+# ---- R-PARTIALGUARD -------------------------------------------------------------------------------------
+def partialguard(repo, templates):
+    """R-PARTIALGUARD (C04/C06): with allow_partial_output the text writers skip what cannot be read instead of reading
+    it.  The guard of every writer -- struct fields (two templates) and array elements (two loops in
+    emboss_text_util.h) -- has one form: `!opts.allow_partial_output() || X.IsAggregate() || X.Ok()`.  `Ok()` is the
+    precondition that X.Read() CHECKs; a weaker last disjunct (`IsComplete()`: the bytes are there, but a BCD nibble
+    may be > 9, an enum out of range, a [requires] violated) sends such a value into Read() and aborts."""
+    res = RuleResult("R-PARTIALGUARD")
+    srcs = [("runtime/cpp/emboss_text_util.h", repo.read("runtime/cpp/emboss_text_util.h"), 0)]
+    for tn, t in templates.templates.items():
+        if "allow_partial_output()" in t["text"]:
+            srcs.append((f"{TEMPLATES}:{tn}", t["text"], t["line"]))
+    rx = re.compile(r"if\s*\(\s*!\s*[\w.>()-]*?allow_partial_output\(\)\s*\|\|((?:\$\{\w+\}|[^(){}]|\((?:[^()]|\([^()]*\))*\))*)\)\s*\{")
+    for fn, text, base in srcs:
+        clean = re.sub(r"//[^\n]*", lambda m_: " " * len(m_.group(0)), text)
+        for mt in rx.finditer(clean):
+            res.instances += 1
+            line = base + clean[:mt.start()].count("\n") + 1
+            disj = [re.sub(r"\s+", "", d) for d in mt.group(1).split("||")]
+            agg = [d for d in disj if d.endswith(".IsAggregate()")]
+            key = f"{fn}|{disj[0][:40] if disj else ''}"
+            if len(disj) != 2 or len(agg) != 1:
+                res.add(key + "|shape", f"partial-output guard `{' || '.join(disj)[:90]}` is not `!allow_partial_output() || X.IsAggregate() || X.Ok()`",
+                        fn.split(":")[0], line)
+                continue
+            x = agg[0][: -len(".IsAggregate()")]
+            other = [d for d in disj if d is not agg[0]][0]
+            if other != x + ".Ok()":
+                res.add(key + "|readable", f"partial output writes `{x}` when `{other}`; the value is then Read(), whose precondition is "
+                        f"`{x}.Ok()`: a complete but invalid value (BCD nibble > 9, [requires] violated) aborts in EMBOSS_CHECK instead "
+                        "of being skipped as UNREADABLE", fn.split(":")[0], line)
+            elif len(res.samples) < 4:
+                res.samples.append(f"{fn}:{line}: {x}.Ok()")
+    res.analysed = [s_[0] for s_ in srcs]
+    return res
+
+
+# ---- R-SHIFTOPERAND -------------------------------------------------------------------------------------
+_NARROW = re.compile(r"^(?:const\s+)?(?:(?:::)?std::)?(?:unsigned(?:\s+(?:int|char|short))?|signed(?:\s+(?:int|char|short))?|int|short|char|bool|"
+                     r"u?int(?:8|16|32)_t|u?int_(?:least|fast)(?:8|16|32)_t)$")
+
+
+def shiftoperand(cpp):
+    """R-SHIFTOPERAND (C03/C02): the views are templates over the field width, up to 64 bits.  Where the amount of a left
+    shift is computed (a loop variable, kBits - 1, offset_), the value shifted must have the view's own (dependent)
+    value type: an operand declared or cast to a fixed type of at most 32 bits (`unsigned`, `int`, `uint32_t`...) is
+    shifted in that type, and for a wide field the high bits are lost or the shift is undefined -- the value written
+    is not the value asked for although every check passed."""
+    res = RuleResult("R-SHIFTOPERAND")
+    units = list(cpp.methods) + list(cpp.functions)
+    seen = set()
+    for mth in units:
+        body = getattr(mth, "body", None)
+        if not body or "<<" not in body:
+            continue
+        key0 = (mth.file, mth.cls, mth.name, mth.line)
+        if key0 in seen:
+            continue
+        seen.add(key0)
+        toks = tokens(body)
+        decl = {}
+        for ptype, pname in (mth.params or []):
+            decl[pname] = re.sub(r"\s+", " ", ptype.replace("&", "").strip())
+        for dm in re.finditer(r"(?:^|[;{(])\s*((?:const\s+)?(?:typename\s+)?[\w:]+(?:\s*<[^;=]*?>)?(?:::\w+)*(?:\s+(?:int|char|short|long))?)\s+(\w+)\s*(?:=|;|\{)",
+                              _COMMENT.sub(" ", body)):
+            if dm.group(1).split()[-1] not in ("return", "else", "typename", "const", "case", "goto", "new", "delete", "throw"):
+                decl.setdefault(dm.group(2), re.sub(r"\s+", " ", dm.group(1)))
+        for i, t in enumerate(toks):
+            if t != "<<" or i == 0 or i + 1 >= len(toks):
+                continue
+            # amount: literal -> not this rule
+            j = i + 1
+            amount = []
+            depth = 0
+            while j < len(toks):
+                if toks[j] in "([":
+                    depth += 1
+                elif toks[j] in ")]":
+                    if depth == 0:
+                        break
+                    depth -= 1
+                elif depth == 0 and toks[j] in (";", ",", "|", "&", "^", "?", ":", "<<", ">>", "==", "<", ">", "||", "&&", "-", "+") and amount:
+                    break
+                amount.append(toks[j])
+                j += 1
+            if not any(re.match(r"[A-Za-z_]", a) and a not in ("sizeof",) for a in amount):
+                continue
+            # left operand
+            k = i - 1
+            ltype, shown = None, None
+            if toks[k] == ")":
+                d, a = 0, k
+                while a >= 0:
+                    if toks[a] == ")":
+                        d += 1
+                    elif toks[a] == "(":
+                        d -= 1
+                        if d == 0:
+                            break
+                    a -= 1
+                inner = toks[a + 1:k]
+                if a >= 1 and toks[a - 1] == ">":
+                    d2, b = 0, a - 1
+                    while b >= 0:
+                        if toks[b] in (">", ">>"):
+                            d2 += 1 if toks[b] == ">" else 2
+                        elif toks[b] == "<":
+                            d2 -= 1
+                            if d2 == 0:
+                                break
+                        b -= 1
+                    if b >= 1 and toks[b - 1] == "static_cast":
+                        ltype = " ".join(x for x in toks[b + 1:a - 1] if x != "typename")
+                        ltype = ltype.replace(" :: ", "::").replace(":: ", "::")
+                        shown = f"static_cast<{ltype}>(...)"
+                elif a >= 1 and re.match(r"[A-Za-z_]", toks[a - 1]):
+                    ltype = None  # a call: unknown
+                else:
+                    ids = [x for x in inner if re.match(r"[A-Za-z_]", x) and x in decl]
+                    if ids:
+                        ltype, shown = decl[ids[0]], f"({' '.join(inner)})"
+            elif re.match(r"[A-Za-z_]\w*$", toks[k]) and (k == 0 or toks[k - 1] not in (".", "->", "::")):
+                if toks[k] in decl:
+                    ltype, shown = decl[toks[k]], toks[k]
+            if toks[k].startswith('"') or (re.match(r"[A-Za-z_]", toks[k]) and "stream" in toks[k].lower()):
+                continue
+            res.instances += 1
+            if ltype is not None and _NARROW.match(ltype.strip()):
+                res.add(f"{mth.file}|{mth.cls}::{mth.name}|{shown[:30]}", f"`{shown} << {' '.join(amount)[:40]}`: the shifted value has the fixed type "
+                        f"`{ltype}` but the amount is computed from the field width (up to 64): bits above that type's width are lost "
+                        "(or the shift is undefined), so a wide field is written with other bits than the value asked for",
+                        mth.file, mth.line, f"{mth.cls}::{mth.name}")
+            elif len(res.samples) < 4 and ltype:
+                res.samples.append(f"{mth.cls}::{mth.name}: {shown} : {ltype}")
     return res
